@@ -299,8 +299,19 @@ VAnchorCat(r) ==
     LET row == CatRow(r.cp)
     IN  IF row = <<>> \/ <<row[1][2], row[1][3]>> # r.cat THEN Rej("ANCHOR category table differs from unicodedata", <<r.cp>>) ELSE Acc
 
+(* ---- T1: the two formulations of the syntax agree -------------------------------------- *)
+G == INSTANCE ABNF
+\* (no implementation involved: r.q is just a text) the ABNF held as data accepts exactly what the
+\* recursive-descent parser accepts in strict mode
+VT1(r) ==
+    LET a == G!AcceptsQuery(r.q)
+        p == Parse(r.q, TRUE)
+    IN  IF a # p.ok THEN Rej("T1 Syntax.tla and ABNF.tla disagree", <<a, p.ok, IF p.ok THEN "" ELSE p.why>>)
+        ELSE Acc
+
 Verdict(r) ==
     CASE r.op = "compile" -> VCompile(r)
+      [] r.op = "t1"      -> VT1(r)
       [] r.op = "anchor_find"  -> VAnchorFind(r)
       [] r.op = "anchor_valid" -> VAnchorValid(r)
       [] r.op = "anchor_cmp"   -> VAnchorCmp(r)
